@@ -197,3 +197,11 @@ def d4(cx: Cx, ob: Ob) -> None:
             if is_const(kw.get("passthrough"), True):
                 ob.violate(fn.qualname, fn.where, f"{name} passes passthrough=True", detail="passthrough")
     format_curie_check(cx, ob)
+
+
+
+@obligation("C07-X2", "state closure (shared with C05): all derived converter state is maintained by _index, lookup tables are never rebound after construction, and no query method writes converter state (no stale caches)", floor=5)
+def x2(cx: Cx, ob: Ob) -> None:
+    from ..rules import state_closure
+
+    state_closure(cx, ob)
